@@ -148,6 +148,6 @@ def check_subprocess(c, rec):
 
 
 def subchecks():
-    return [SubCheck("in_process", check_inprocess, programs, quick=40, thorough=400, shards_quick=4, shards_thorough=8),
-            SubCheck("fresh_processes", check_subprocess, lambda: programs(5), quick=2, thorough=10, shards_quick=4,
+    return [SubCheck("in_process", check_inprocess, programs, quick=40, thorough=1200, shards_quick=4, shards_thorough=16),
+            SubCheck("fresh_processes", check_subprocess, lambda: programs(5), quick=2, thorough=30, shards_quick=4,
                      shards_thorough=16)]
